@@ -94,6 +94,13 @@ func (m FileMatcher) Match(file *ast.File, d data.Data) (data.Data, bool) {
 			return false
 		}
 
+		// Comments are not code and never match. A group whose comments
+		// were all removed by an earlier change cannot even tell where it
+		// is (go/ast indexes its first comment).
+		if _, ok := n.(*ast.CommentGroup); ok {
+			return false
+		}
+
 		d, ok := m.NodeMatcher.Match(reflect.ValueOf(n), d, nodeRegion(n))
 		if !ok {
 			return true
